@@ -1,5 +1,7 @@
 import Cql.Audit
 import Cql.Props.C10
 import Cql.Props.C10Dispatch
+import Cql.Props.C16AsWritten
 #audit_namespace Cql.Props.C10
 #audit_namespace Cql.Props.C10Dispatch
+#audit_namespace Cql.Props.C16AsWritten
